@@ -517,30 +517,15 @@ func genCharsets(w *CoqWriter) {
 	}
 
 	// availability: all 256 data_coding values
-	w.P("(* data_coding c -> has encoder, has decoder, has splitter, base coding whose Encoding() it resolves to")
-	w.P("   (smallest of the ten table entries with an equal Encoding value; 255 = none) *)")
+	w.P("(* data_coding c -> has encoder, has decoder, has splitter, base coding whose encoder the one Encoding() hands out behaves like")
+	w.P("   (smallest of the ten table constants with equal behaviour, see dc_closure; 255 = no encoder, 254 = like none of them) *)")
 	w.P("Definition dc_table : list (N * bool * bool * bool * N) := [")
-	bases := []coding.DataCoding{coding.GSM7BitCoding, coding.ASCIICoding, coding.Latin1Coding, coding.ShiftJISCoding,
-		coding.CyrillicCoding, coding.HebrewCoding, coding.UCS2Coding, coding.ISO2022JPCoding, coding.EUCJPCoding, coding.EUCKRCoding}
+	tab := dcClosure()
 	for b := 0; b < 256; b++ {
-		c := coding.DataCoding(b)
-		e := c.Encoding()
-		hasEnc, hasDec := false, false
-		base := 255
-		if e != nil {
-			hasEnc = e.NewEncoder() != nil
-			hasDec = e.NewDecoder() != nil
-			for _, bc := range bases {
-				same := false
-				guard(func() { same = bc.Encoding() == e })
-				if same {
-					base = int(bc)
-					break
-				}
-			}
-		}
-		w.P(" (%d, %s, %s, %s, %d)%s", b, coqBool(hasEnc), coqBool(hasDec), coqBool(c.Splitter() != nil), base, sep(b, 256))
+		d := closureDig[b]
+		w.P(" (%d, %s, %s, %s, %d)%s", b, coqBool(d.hasEnc), coqBool(d.hasDec), coqBool(d.hasSpl), tab[b].enc, sep(b, 256))
 	}
 	w.P("].")
+	emitClosure(w)
 	subs.flush(w)
 }
